@@ -109,6 +109,17 @@ impl Prop for SeqExact {
     fn run(&self, c: &SeqCase, ctx: &mut Ctx) -> CheckResult {
         let s = c.content.expand();
         let m = SeqModel::new(s.clone());
+        // KF-2 (recorded finding): Huffman codes longer than 32 bits are kept in a u32. The signature
+        // is a predicted code depth of more than 16 quad / 32 binary levels; such inputs need
+        // n >= 1 318 811 (quad) / 9 227 465 (binary) and lie outside the generated range.
+        if c.kind.is_huffman() && !ctx.strict && s.len() >= 1_318_811 {
+            let (depth, _) = huffman_shape(&m, c.kind);
+            if (c.kind.is_quad() && depth > 16) || (!c.kind.is_quad() && depth > 32) {
+                ctx.excluded_known += 1;
+                ctx.label("excluded:KF-2");
+                return Ok(());
+            }
+        }
         let t = build_tree(c.kind, c.ty, c.how, &s, Some(c.tie_seed));
         label_seq(&m, c.kind, c.ty, ctx);
         ctx.label(&format!("how={:?}", c.how));
@@ -116,7 +127,7 @@ impl Prop for SeqExact {
         let d = m.distinct();
         if c.kind.is_huffman() {
             let (depth, nlens) = huffman_shape(&m, c.kind);
-            ctx.label(&format!("huff_depth={}", match depth { 0 => "0", 1 => "1", 2..=3 => "2-3", 4..=7 => "4-7", 8..=11 => "8-11", 12..=15 => "12-15", _ => ">=16" }));
+            ctx.label(&format!("huff_depth={}", match depth { 0 => "0", 1 => "1", 2..=3 => "2-3", 4..=7 => "4-7", 8..=11 => "8-11", 12..=15 => "12-15", 16 => "16", 17..=23 => "17-23", 24..=32 => "24-32", _ => ">32" }));
             if nlens >= 2 {
                 ctx.label("huff_unequal_lengths");
             }
